@@ -2,18 +2,19 @@
 SPEC = dict(
     title="Membership changes keep node IDs and addresses unique",
     pkg="./store", files=["store/c32_verif_test.go"],
-    rule="membership histories (discovery notifies, bootstraps, joins, re-joins, removals, reaper observations; 5-20 events) on live in-process "
-         "clusters of 4 Stores: 11 hand-picked histories (one per re-join case of the property text, reaper decisions for both roles, "
-         "discovery with duplicate addresses, the serving node re-joining itself, live reaping of a dead address) plus 14 (quick) / 300 (thorough) "
-         "random ones; a history is non-trivial when it contains a join that finds its id or its address already in the configuration and "
+    rule="membership histories (discovery notifies, bootstraps, joins, re-joins, removals, reaper observations, leadership transfers between "
+         "them; 5-25 events, requests served by whichever node leads) on live in-process clusters of 4 Stores: 15 hand-picked histories (one per "
+         "re-join case of the property text, reaper decisions for both roles, discovery with duplicate addresses, the serving node re-joining itself, "
+         "role changed under one leader and failed heartbeats judged under another with distinct / disabled timeouts, live reaping of a dead address "
+         "with and without such a leader change) plus 10 (quick) / 400 (thorough) random ones, half of them with leadership transfers; a history is non-trivial when it contains a join that finds its id or its address already in the configuration and "
          "changes address, id or role; distinct by the JSON text of the history",
     exhaustive=False,
     trusted=["hashicorp/raft v1.7.3 nextConfiguration/checkConfiguration/liveBootstrap guard are transcribed by hand into Model.C32 "
              "(raft_change, raft_bootstrap); validated per run: every configuration observed on the live library is compared with the model's",
-             "an accepted configuration change commits (the driver keeps a quorum of responsive voters) and the serving node stays leader while it has a vote",
+             "an accepted configuration change commits (the driver keeps a quorum of responsive voters); leadership moves only when the driver transfers it (a history in which raft elects by itself is repeated, then set aside as inconclusive)",
              "cluster/join.go, bootstrap.go, remove.go only carry the requests (id, address, voter flag) to Store.Join/Notify/Remove; they are not in the model",
              "raft suffrage Staging is never produced by rqlite and is not modelled"],
-    assumptions=["membership requests are served by one node at a time (Store.Join/Remove/Notify and the reaper run on the leader; raft serialises configuration changes)",
+    assumptions=["membership requests are served by one node at a time (Store.Join/Remove and the reaper run on the current leader, Notify/Bootstrap on the discovered node; raft serialises configuration changes); every decision is a function of the current replicated configuration, not of which node led when it was changed",
                  "time enters only as the silence carried by raft's FailedHeartbeatObservation, compared in ms"],
     level_text="C32_config_unique, C32_role_as_requested(_reachable), C32_role_kept, C32_reaped_only_after_timeout, C32_removed_only_when_justified hold for every "
                "event sequence of any length and every parameter setting (no bound); the model's step function is run against live 4-node clusters on the histories above.",
